@@ -58,6 +58,12 @@ func (e *Engine) taggedFuncs(prop string) (keys []string, lemmas []*Lemma) {
 		for _, cl := range c.Ensures {
 			tagged = tagged || hasTag(cl.Tags, prop)
 		}
+		for _, an := range c.Anchors {
+			tagged = tagged || hasTag(an.C.Tags, prop)
+		}
+		for _, cl := range c.PanicsIf {
+			tagged = tagged || hasTag(cl.Tags, prop)
+		}
 		for _, cls := range c.LoopInv {
 			for _, cl := range cls {
 				tagged = tagged || hasTag(cl.Tags, prop)
@@ -272,7 +278,7 @@ func checkProperty(repo, verif, prop, tier string, seed, timeout int, writeEvide
 		// locked obligation (a function was renamed or its signature changed)
 		lock := readLock(filepath.Join(verif, "obligations.lock"))
 		if len(lock[prop]) > 0 && strings.Contains(err.Error(), "contracts") {
-			rp := filepath.Join(verif, "replay", prop+"-contracts-do-not-typecheck.json")
+			rp := filepath.Join(replayDir(verif), prop+"-contracts-do-not-typecheck.json")
 			os.MkdirAll(filepath.Dir(rp), 0o755)
 			js, _ := json.MarshalIndent(map[string]interface{}{"property": prop, "obligation": "all locked obligations (contracts no longer type-check against the tree)", "solver_output": err.Error()}, "", " ")
 			os.WriteFile(rp, js, 0o644)
@@ -328,9 +334,16 @@ func checkProperty(repo, verif, prop, tier string, seed, timeout int, writeEvide
 	// different seed before it may be reported: solver time varies with machine load,
 	// and a timeout is not evidence of a violation.
 	retried := 0
+	replayed := map[*Obl]string{}
 	for _, r := range results {
 		for _, o := range r.Obls {
 			if o.Kind == "assert" && o.Status == "undecided" && lock[shortObl(baseName(o.Name))] {
+				// first see whether a candidate input already fails on the real code
+				if rp, ok := makeReplay(e, verif, prop, r, o); ok {
+					o.Status = "refuted"
+					replayed[o] = rp
+					continue
+				}
 				o.Status = ""
 				retried++
 			}
@@ -352,6 +365,11 @@ func checkProperty(repo, verif, prop, tier string, seed, timeout int, writeEvide
 		return nil
 	}
 	cr := &checkResult{results: results}
+	for _, cf := range e.cfiles {
+		for k, why := range cf.Broken {
+			cr.hardErrors = append(cr.hardErrors, "contract "+k+" no longer matches the tree: "+why)
+		}
+	}
 	classSeen := map[string]bool{}
 	var oreps []oblReport
 	var freps []funcReport
@@ -393,6 +411,13 @@ func checkProperty(repo, verif, prop, tier string, seed, timeout int, writeEvide
 			}
 			cls := shortObl(baseName(o.Name))
 			classSeen[cls] = true
+			// obligations that were never discharged on the unchanged tree (not in the lock file) and
+			// are undecided now are work in progress on the contracts: they are listed separately
+			// (undecided_not_locked) and are not part of what the check claims
+			if o.Status == "undecided" && !lock[cls] && isKnown(o.Name) == nil {
+				cr.undecided = append(cr.undecided, shortObl(o.Name)+" ("+o.Status+")")
+				continue
+			}
 			fr.Obligations++
 			cr.obligations++
 			oreps = append(oreps, oblReport{Name: shortObl(o.Name), Status: o.Status, Backend: o.Backend, TimeS: o.Time, Tags: o.Tags})
@@ -414,7 +439,10 @@ func checkProperty(repo, verif, prop, tier string, seed, timeout int, writeEvide
 			}
 			switch o.Status {
 			case "refuted":
-				rp, reproduced := makeReplay(e, verif, prop, r, o)
+				rp, reproduced := replayed[o], replayed[o] != ""
+				if !reproduced {
+					rp, reproduced = makeReplay(e, verif, prop, r, o)
+				}
 				if reproduced {
 					cr.violations = append(cr.violations, fmt.Sprintf("VIOLATION property=%s replay=%s", prop, rp))
 				} else {
@@ -422,10 +450,19 @@ func checkProperty(repo, verif, prop, tier string, seed, timeout int, writeEvide
 				}
 			default:
 				if lock[cls] {
-					rp := writeReplayStub(verif, prop, o, "locked obligation no longer discharges ("+o.Status+")")
-					cr.violations = append(cr.violations, fmt.Sprintf("VIOLATION property=%s replay=%s no-failing-input-found", prop, rp))
+					// no model from the solvers: a candidate input from the quantifier-free weakening
+					// may still replay on the real code
+					o.Output = "locked obligation no longer discharges (" + o.Status + ")\n" + o.Output
+					rp, reproduced := makeReplay(e, verif, prop, r, o)
+					if reproduced {
+						cr.violations = append(cr.violations, fmt.Sprintf("VIOLATION property=%s replay=%s", prop, rp))
+					} else {
+						cr.violations = append(cr.violations, fmt.Sprintf("VIOLATION property=%s replay=%s no-failing-input-found", prop, rp))
+					}
 				} else {
 					cr.undecided = append(cr.undecided, shortObl(o.Name)+" ("+o.Status+")")
+					cr.obligations--
+					fr.Obligations--
 				}
 			}
 		}
@@ -439,12 +476,19 @@ func checkProperty(repo, verif, prop, tier string, seed, timeout int, writeEvide
 		}
 	}
 	sort.Strings(missing)
+	var reallyMissing []string
 	for _, cls := range missing {
-		if isKnown(cls) != nil {
-			continue
+		if isKnown(cls) == nil {
+			reallyMissing = append(reallyMissing, cls)
 		}
-		o := &Obl{Name: cls, Status: "missing", Output: "the obligation was discharged on the unchanged tree and is no longer generated (function or clause removed, renamed, or its VC generation failed): " + strings.Join(cr.hardErrors, "; ")}
-		rp := writeReplayStub(verif, prop, o, "locked obligation missing")
+	}
+	if len(reallyMissing) > 0 {
+		// one violation for the whole group: they share a cause (a function or clause was removed or
+		// renamed, a contract no longer matches the tree, or VC generation of a function failed)
+		o := &Obl{Name: fmt.Sprintf("%d locked obligations no longer generated (first: %s)", len(reallyMissing), reallyMissing[0]), Status: "missing",
+			Output: "these obligations were discharged on the unchanged tree and are no longer generated:\n  " + strings.Join(reallyMissing, "\n  ") +
+				"\ncause(s) reported by the engine:\n  " + strings.Join(cr.hardErrors, "\n  ")}
+		rp := writeReplayStub(verif, prop, o, "locked obligations missing")
 		cr.violations = append(cr.violations, fmt.Sprintf("VIOLATION property=%s replay=%s no-failing-input-found", prop, rp))
 	}
 	cr.wall = time.Since(t0).Seconds()
@@ -481,11 +525,11 @@ func checkProperty(repo, verif, prop, tier string, seed, timeout int, writeEvide
 	}
 	fmt.Printf("property %s: %d/%d obligations discharged, %d undecided (not locked), %d violations, %d known findings, %.1fs\n",
 		prop, cr.discharged, cr.obligations, len(cr.undecided), len(cr.violations), len(cr.known), cr.wall)
-	if len(cr.violations) > 0 {
-		return 1, nil
-	}
 	for _, he := range cr.hardErrors {
 		fmt.Fprintln(os.Stderr, "engine:", he)
+	}
+	if len(cr.violations) > 0 {
+		return 1, nil
 	}
 	// engine errors and vacuity failures are not violations; they make the run unusable
 	for _, he := range cr.hardErrors {
@@ -544,9 +588,13 @@ func (e *Engine) levelOf(verif, prop string) string {
 }
 
 func writeReplayStub(verif, prop string, o *Obl, why string) string {
-	dir := filepath.Join(verif, "replay")
+	dir := replayDir(verif)
 	os.MkdirAll(dir, 0o755)
-	p := filepath.Join(dir, prop+"-"+sanitize(shortObl(o.Name))+".json")
+	nm := sanitize(shortObl(o.Name))
+	if len(nm) > 120 {
+		nm = nm[:120]
+	}
+	p := filepath.Join(dir, prop+"-"+nm+".json")
 	js, _ := json.MarshalIndent(map[string]interface{}{
 		"property": prop, "obligation": shortObl(o.Name), "status": o.Status, "reason": why,
 		"solver_output": o.Output, "failing_input": nil,
